@@ -3,6 +3,13 @@
    harnesses harness/C19/zz_verif_c19_*_test.go. *)
 let variant = if Array.length Sys.argv > 3 && Sys.argv.(3) = "defective" then Defective
   else if Array.length Sys.argv > 3 && Sys.argv.(3) = "head" then Head else Repaired
+(* the implementation's line for the current case (MODEL_NEEDS_IMPL): used ONLY to resolve the two choices the property leaves
+   open — refuse-or-wrap for oversize payloads (ovf) and the number of zero pad octets after END in a server reply (pad) *)
+let cur_impl = ref ""
+let impl_head () = match String.index_opt !cur_impl ' ' with Some i -> String.sub !cur_impl 0 i | None -> !cur_impl
+let ovf () = (impl_head () = "nil")
+let is_hex s = s <> "" && String.length s mod 2 = 0 && (let ok = ref true in String.iter (fun c -> if not ((c >= '0' && c <= '9') || (c >= 'a' && c <= 'f')) then ok := false) s; !ok)
+let impl_frame_len () = let h = impl_head () in if is_hex h then String.length h / 2 else 0
 let hx = hex_of_bytes
 let bx = bytes_of_hex
 let ni s = n_of_int (int_of_string s)
@@ -100,6 +107,13 @@ let res_frame sum = function
   | Panic -> "panic"
   | OutOfFuel -> "OUTOFFUEL"
 
+(* admissible padding: the implementation's reply may be longer than the unpadded one by k octets; the model then builds the
+   reply with k ZERO octets after END (anything else after END, or any other difference, still shows as a mismatch) *)
+let pad_of build =
+  match build 0 with
+  | Ok (Some f0) -> let k = impl_frame_len () - List.length f0 in if k > 0 && k <= 2000 then k else 0
+  | _ -> 0
+
 let pairs_of toks = (* "code,hex" tokens *)
   List.map (fun t -> match split_on ',' t with [c; d] -> (ni c, bx d) | _ -> failwith "pair") toks
 
@@ -107,13 +121,13 @@ let run line =
   match tokens line with
   | [] -> ""
   | ["ip4"; s; d; sp; dp; p] ->
-    res_frame sum4 (build_ipv4_udp_frame variant (ip_of s) (ip_of d) (ni sp) (ni dp) (bx p))
+    res_frame sum4 (build_ipv4_udp_frame variant (ovf ()) (ip_of s) (ip_of d) (ni sp) (ni dp) (bx p))
   | ["udp4"; s; d; sp; dp; p] ->
-    res_bytes (fun f -> hx f ^ " " ^ sum4 f) (build_udp_packet (ip_of s) (ip_of d) (ni sp) (ni dp) (bx p))
+    res_bytes (fun f -> if f = [] then "nil" else hx f ^ " " ^ sum4 f) (build_udp_packet (ovf ()) (ip_of s) (ip_of d) (ni sp) (ni dp) (bx p))
   | ["ip6"; s; d; sp; dp; p] ->
-    res_frame sum6 (build_ipv6_udp_frame (ip_of s) (ip_of d) (ni sp) (ni dp) (bx p))
+    res_frame sum6 (build_ipv6_udp_frame (ovf ()) (ip_of s) (ip_of d) (ni sp) (ni dp) (bx p))
   | ["wrap"; s; d; p] ->
-    res_bytes (fun f -> if f = [] then "nil" else hx f ^ " " ^ sum4 f) (wrap_ip_udp variant (bx p) (ip_of s) (ip_of d))
+    res_bytes (fun f -> if f = [] then "nil" else hx f ^ " " ^ sum4 f) (wrap_ip_udp variant (ovf ()) (bx p) (ip_of s) (ip_of d))
   | ["o82build"; fl; un; _; _; _; _; _; _; ec; er] ->
     (match build_option82 (fl = "1") (un = "1") (bx ec) (bx er) with
      | Ok b -> "ok " ^ hx b
@@ -167,9 +181,9 @@ let run line =
   | "pool" :: xid :: ci :: hw :: mt :: ip :: gw :: mask :: lease :: nd :: rest ->
     let (dns, rest) = take (int_of_string nd) rest in
     let extra = match rest with _ :: e -> pairs_of e | [] -> [] in
-    res_frame (fun f -> sum4 f ^ " gp=" ^ gp_full (from f 28))
-      (build_response_pool variant (ni xid) (ip_of ci) (bx hw) (ni mt) (ip_of ip) (ip_of gw) (bx mask)
-         (List.map ip_of dns) (ni lease) extra)
+    let build pad = build_response_pool variant (ovf ()) (nat_of_int pad) (ni xid) (ip_of ci) (bx hw) (ni mt) (ip_of ip) (ip_of gw) (bx mask)
+         (List.map ip_of dns) (ni lease) extra in
+    res_frame (fun f -> sum4 f ^ " gp=" ^ gp_full (from f 28)) (build (pad_of build))
   | "resolved" :: xid :: ci :: hw :: mt :: yip :: router :: sid :: mask :: lease :: nd :: rest ->
     let (dns, rest) = take (int_of_string nd) rest in
     let (nr, rest) = match rest with n :: r -> (int_of_string n, r) | [] -> (0, []) in
@@ -177,9 +191,9 @@ let run line =
     let routes = List.map (fun t -> match split_on ',' t with
         | [o; d; h] -> ((ni o, ip_of d), ip_of h) | _ -> failwith "route") routes in
     let extra = match rest with _ :: e -> pairs_of e | [] -> [] in
-    res_frame (fun f -> sum4 f ^ " gp=" ^ gp_full (from f 28))
-      (build_response_resolved variant (ni xid) (ip_of ci) (bx hw) (ni mt) (ip_of yip) (ip_of router) (ip_of sid)
-         (bx mask) (List.map ip_of dns) (ni lease) routes extra)
+    let build pad = build_response_resolved variant (ovf ()) (nat_of_int pad) (ni xid) (ip_of ci) (bx hw) (ni mt) (ip_of yip) (ip_of router) (ip_of sid)
+         (bx mask) (List.map ip_of dns) (ni lease) routes extra in
+    res_frame (fun f -> sum4 f ^ " gp=" ^ gp_full (from f 28)) (build (pad_of build))
   | "ser6" :: ty :: tx :: cl :: sv :: na :: pd :: nd :: rest ->
     let (dns, rest) = take (int_of_string nd) rest in
     let (st, rest) = match rest with s :: r -> (s, r) | [] -> ("nil", []) in
@@ -233,13 +247,13 @@ let run line =
                   (if List.length b > 3 then int_of_n (List.nth b 3) else 0))
       (relay_forward4 variant (bx p) (ip_of gi) (bx o) pol)
   | ["relayreply4"; gi; p] ->
-    res_bytes (fun f -> if f = [] then "nil" else hx f ^ " " ^ sum4 f ^ " gp=" ^ gp_codes (from f 28)) (relay_reply4 variant (bx p) (ip_of gi))
+    res_bytes (fun f -> if f = [] then "nil" else hx f ^ " " ^ sum4 f ^ " gp=" ^ gp_codes (from f 28)) (relay_reply4 variant (ovf ()) (bx p) (ip_of gi))
   | ["proxyreply4"; gi; lease; p] ->
     res_bytes (fun f -> if f = [] then "nil" else
         let b = from f 28 in
         let g c = match get_option4 b (n_of_int c) with Ok (Some x) -> hx x | Ok None -> "none" | _ -> "crash" in
         Printf.sprintf "%s %s gp=%s get=%s,%s,%s,%s" (hx f) (sum4 f) (gp_codes b) (g 54) (g 51) (g 58) (g 59))
-      (proxy_reply4 variant (bx p) (ip_of gi) (ni lease))
+      (proxy_reply4 variant (ovf ()) (bx p) (ip_of gi) (ni lease))
   | ["pseq6"; pd; pref; valid; raw; req] ->
     (match unwrap_relay_reply (bx raw) with
      | Ok inner ->
@@ -265,4 +279,12 @@ let run line =
 
 let () =
   let lines = read_lines Sys.argv.(1) in
-  List.iter (fun l -> print_endline (try run l with e -> "DRIVERERROR " ^ Printexc.to_string e)) lines
+  let impls = if Array.length Sys.argv > 2 && Sys.argv.(2) <> "-" then read_lines Sys.argv.(2) else [] in
+  let rec go ls is = match ls with
+    | [] -> ()
+    | l :: lr ->
+      let (i, ir) = (match is with x :: r -> (x, r) | [] -> ("", [])) in
+      cur_impl := i;
+      print_endline (try run l with e -> "DRIVERERROR " ^ Printexc.to_string e);
+      go lr ir in
+  go lines impls
